@@ -23,7 +23,9 @@ def sampleGranular : List Nat := [0x01, 0x05, 0x02, 0x03, 0x04, 0x06, 0x07, 0x10
 
 /-- `wavlike_srate2blocksize` (bytes per ADPCM block as a function of samplerate × channels) -/
 def srate2blocksize (p : Nat) : Nat :=
-  if p < 12000 then 256 else if p < 23000 then 512 else if p < 44000 then 1024 else 2048
+  -- the library forms samplerate × channels in a C `int`: from 2^31 on the product wraps to a negative value (smallest block)
+  let w : Int := ((p : Int) + 2 ^ 31) % 2 ^ 32 - 2 ^ 31
+  if w < 12000 then 256 else if w < 23000 then 512 else if w < 44000 then 1024 else 2048
 
 /-- B: frames per codec block (1 for sample-granular encodings).
     The two ADPCM expressions are evaluated in `Int` with floor division as Python does and clamped at 0
